@@ -133,17 +133,19 @@ theorem frame_transmitReconfig : Frame transmitReconfig := by
   unfold transmitReconfig
   wp_simp
   split
-  · wp_simp
-    split
-    · apply WP.frame (frame_sendChunk _)
-      intro r s1 h1
-      cases r with
-      | error k => exact FrameRel.trans _ _ _ (by frame_rel) h1
-      | ok a =>
-        apply WP.frame frame_rcStart
-        intro r s2 h2
-        exact FrameRel.trans _ _ _ (FrameRel.trans _ _ _ (by frame_rel) h1) h2
-    all_goals frame_rel
+  · split
+    · wp_simp; frame_rel
+    · wp_simp
+      split
+      · apply WP.frame (frame_sendChunk _)
+        intro r s1 h1
+        cases r with
+        | error k => exact FrameRel.trans _ _ _ (by frame_rel) h1
+        | ok a =>
+          apply WP.frame frame_rcStart
+          intro r s2 h2
+          exact FrameRel.trans _ _ _ (FrameRel.trans _ _ _ (by frame_rel) h1) h2
+      all_goals frame_rel
   · wp_simp; frame_rel
 macro_rules | `(tactic| pres_leaf) => `(tactic| exact pres_of_frame frame_transmitReconfig)
 
